@@ -264,6 +264,10 @@ def directed() -> List[Dict[str, Any]]:
                                                      G1("h", "P1"), G1("t", "P1"), G1("z", "P2"), F], "meas": [0]})
             D.append({"history": [A("A1", [v0])] + P + [G1("y", "P1"), {"s": "if", "cmp": "ne", "a": fut("A1", c(0)), "b": c(1), "form": form,
                                                                       "body": [G1("x", "P1"), G1("h", "P2")]}, G1("s", "P2"), G1("k", "P1"), F], "meas": [0]})
+    # repeat-until whose value passes the bound without ever being equal to it (3 -> 1 -> -1 against "at most 0", ...)
+    for start, step, bound in ((3, -2, 0), (4, -3, 1), (5, -2, 0), (2, -5, -1)):
+        D.append({"history": [A("A1", [start]), {"s": "until", "max": 6, "t": fut("A1", c(0)), "v": bound, "cleanup": [],
+                                                 "body": [{"s": "add", "t": fut("A1", c(0)), "o": c(step), "mod": -1}]}, F, RA("A1")], "meas": [0]})
     # counting down, both forms of the loop
     for form in ("ctx", "body"):
         D.append({"history": [A("A1", [10, 0, 0, 0])] + [{"s": "loop", "start": 3, "stop": 0, "step": -1, "form": form,
